@@ -95,7 +95,7 @@ let () =
   let mode = match Sys.argv.(1) with "debug" -> Checked | "release" -> Wrapping | _ -> failwith "mode" in
   let prop = n_of_int (int_of_string Sys.argv.(2)) in
   let show = Array.length Sys.argv > 3 && Sys.argv.(3) = "--show" in
-  let total = ref 0 and disagree = ref 0 and oracle_fail = ref 0 and lineno = ref 0 in
+  let total = ref 0 and disagree = ref 0 and oracle_fail = ref 0 and lineno = ref 0 and njudged = ref 0 in
   (try
      while true do
        let line = input_line stdin in
@@ -110,6 +110,7 @@ let () =
             let model = run_case mode comp_n c in
             let agree = evs_eqb model impl in
             let ok = oracle prop comp_n c impl in
+            if judged prop comp_n c then incr njudged;
             if not agree then begin
               incr disagree;
               Printf.printf "DISAGREE\t%d\t%s\t%s\n" !lineno comp case;
@@ -124,4 +125,4 @@ let () =
        end
      done
    with End_of_file -> ());
-  Printf.printf "SUMMARY\ttotal=%d\tdisagree=%d\toracle_fail=%d\n" !total !disagree !oracle_fail
+  Printf.printf "SUMMARY\ttotal=%d\tdisagree=%d\toracle_fail=%d\tjudged=%d\n" !total !disagree !oracle_fail !njudged
